@@ -173,6 +173,21 @@ func specBAMPayload(b *B) {
 
 func specBAMHeaderOnly(b *B) { bamHeader(b) }
 
+// a header with more references than any fixed-size table a decoder might keep (1003)
+func specBAMHeaderMany(b *B) {
+	const text = "@HD\tVN:1.6\tSO:unsorted\n"
+	b.str("bam_magic", "magic", "BAM\x01")
+	b.i32("l_text", "len", len(text))
+	b.str("text", "bytes", text)
+	b.i32("n_ref", "count", 1003)
+	for i := 0; i < 1003; i++ {
+		n := fmt.Sprintf("c%04d", i)
+		b.i32("l_name", "len", len(n)+1)
+		b.str("name", "nul", n+"\x00")
+		b.i32("l_ref", "int", 1000+i)
+	}
+}
+
 // ---- BAI / tabix / CSI -----------------------------------------------------------------
 
 func voff(file, block int) uint64 { return uint64(file)<<16 | uint64(block) }
@@ -264,7 +279,8 @@ func specCSI(version int) func(*B) {
 // ---- FAI / FASTA -----------------------------------------------------------------------
 
 func specFAI(b *B) {
-	for i, r := range [][5]int{{0, 250, 6, 60, 61}, {1, 1000, 270, 70, 72}} {
+	// (the last sequence fills exactly one line: its length equals the line's width in bases)
+	for i, r := range [][5]int{{0, 250, 6, 60, 61}, {1, 1000, 270, 70, 72}, {2, 80, 1310, 80, 81}} {
 		b.str("fai_name", "col", fmt.Sprintf("seq%d", i+1))
 		b.str("tab", "sep", "\t")
 		b.str("fai_length", "num", fmt.Sprint(r[1]))
